@@ -349,6 +349,7 @@ type Req struct {
 	Hijacker      int   // underlying writer facet: 0 no http.Hijacker, 1 a Hijacker whose Hijack fails, 2 one whose Hijack succeeds
 	ReaderFrom    bool  // underlying writer facet: io.ReaderFrom (as net/http's response has)
 	Deadline      int64 // virtual ticks after start; 0 none
+	Staged        bool  // the client has announced a large body, sent its head and waits for the server's verdict before sending the rest
 	Think         int64 // open workload: virtual ticks the task sleeps before it issues this request; 0 none
 	CtxErr        int   // what the request context reports once cancelled: 0 Canceled, 1 DeadlineExceeded, 2 a custom error, 3 Canceled although it carries a deadline far ahead
 	PlannedCancel int   // CancelAt as generated (Local.CancelAt is consumed during the run)
